@@ -66,18 +66,24 @@ func fingerprint(cc *eval.Config, src string) string {
 	var err error
 	p := safely(func() M { e, err = eval.Compile(cc, src); return nil })
 	if p != nil {
-		return "panic:" + fmt.Sprint(p["msg"])
+		return "panic:" + fmt.Sprint(p["msg"], p["v"])
 	}
 	if err != nil {
 		return "err:" + err.Error()
 	}
 	var sb strings.Builder
-	sb.WriteString(eval.Dump(e))
-	sb.WriteString("\n")
-	sb.WriteString(eval.DumpTable(e, true))
-	for _, env := range fpEnvs {
-		v, err := e.Eval(&eval.Ctx{VariableFetcher: &Fetcher{Vals: env}})
-		fmt.Fprintf(&sb, "|%v,%v", v, err != nil)
+	p = safely(func() M {
+		sb.WriteString(eval.Dump(e))
+		sb.WriteString("\n")
+		sb.WriteString(eval.DumpTable(e, true))
+		for _, env := range fpEnvs {
+			v, err := e.Eval(&eval.Ctx{VariableFetcher: &Fetcher{Vals: env}})
+			fmt.Fprintf(&sb, "|%v,%v", v, err != nil)
+		}
+		return nil
+	})
+	if p != nil {
+		return "panic:" + fmt.Sprint(p["msg"], p["v"])
 	}
 	return sb.String()
 }
